@@ -398,3 +398,25 @@ def _r_dup_label(f):
     nt = "".join(l + " .\n" for l in [_e('a') + " " + _T + " " + _e('C'), _e('b') + " " + _T + " <http://other.org/ns#C>"])
     out = Shaper(raw_graph=nt, all_classes_mode=True).shex_graph(string_output=True)
     return out.count("\n:C") >= 2
+
+
+# ------------------------------------------------------------------ C17
+@trigger("quoted_prefixed_example")
+def _t_c17_q(f, obs):
+    # the printed example is "pre:local" in quotes, its expansion is a real value, and that value is an IRI the
+    # serialiser shortened before quoting (direct mode: any http IRI; inverse mode: https IRIs only)
+    if obs.get("kind") != "example_quoted_prefixed":
+        return False
+    iri = obs["expanded"]
+    return iri in obs["values"] and (iri.startswith("https://") if obs["inverse_paths"] else iri.startswith("http"))
+
+
+@replayer("quoted_prefixed_example")
+def _r_c17_q(f):
+    from shexer.shaper import Shaper
+    from shexer import consts as C
+    nt = '<http://example.org/a> <http://www.w3.org/1999/02/22-rdf-syntax-ns#type> <http://example.org/C> .\n' \
+         '<http://example.org/a> <http://example.org/knows> <http://example.org/Bella> .\n'
+    t = Shaper(raw_graph=nt, input_format=C.NT, all_classes_mode=True, namespaces_dict={"http://example.org/": "ex"},
+               examples_mode=C.CONSTRAINT_EXAMPLES).shex_graph(string_output=True)
+    return '// rdfs:comment "ex:Bella"' in t
